@@ -22,7 +22,8 @@ def showMErr : MErr → String
   | .none => "ok" | .eof => "eof" | .ueof => "ueof"
 
 def showClose : CloseRes → String
-  | .ok => "ok" | .readingError => "reading" | .notFound => "notfound" | .mismatch => "mismatch"
+  -- the implementation reports all three failures as errors.SignatureError (they differ only in message text)
+  | .ok => "ok" | .readingError => "sigerr" | .notFound => "sigerr" | .mismatch => "sigerr"
 
 def showNats (l : List Nat) : String := if l.isEmpty then "-" else ",".intercalate (l.map toString)
 
